@@ -507,16 +507,48 @@ def _prims(jaxpr, acc=None):
 _CUR = None
 
 
+def die_with_parent():
+    """Linux: deliver SIGKILL to this process when its parent dies (a solver call inside libz3 does not react to SIGTERM, so orphaned workers
+    of a killed check would otherwise keep a core busy until their own query budget runs out)."""
+    try:
+        import ctypes
+        import signal
+        ctypes.CDLL("libc.so.6", use_errno=True).prctl(1, int(signal.SIGKILL), 0, 0, 0)  # PR_SET_PDEATHSIG
+    except Exception:
+        pass
+
+
+_NTIMEOUT = None   # shared counter (fork pool) / plain list (sequential) of obligations of the current problem that ran out of budget
+GIVE_UP_AFTER = 3   # after this many budget overruns in ONE problem the remaining obligations get a short budget: when a proof evidently no longer
+SHORT_BUDGET = 20.0  # goes through (changed code), waiting the full budget for every remaining clause only delays the verdict by hours
+
+
+def _budget_for(problem):
+    n = _NTIMEOUT.value if hasattr(_NTIMEOUT, "value") else (_NTIMEOUT[0] if _NTIMEOUT else 0)
+    return min(problem.timeout, SHORT_BUDGET) if n >= GIVE_UP_AFTER else None
+
+
+def _note_result(res):
+    if res.get("verdict") not in (UNSAT, SAT, "error"):
+        if hasattr(_NTIMEOUT, "value"):
+            with _NTIMEOUT.get_lock():
+                _NTIMEOUT.value += 1
+        elif _NTIMEOUT is not None:
+            _NTIMEOUT[0] += 1
+    return res
+
+
 def _solve_idx(i):
     try:
-        return _CUR.check_one(i)
+        return _note_result(_CUR.check_one(i, _budget_for(_CUR)))
     except Exception as ex:
         return {"name": _CUR.obligations[i][0], "verdict": "error", "error": repr(ex)[:300], "time": 0.0}
 
 
 def discharge(problem, workers=1, select=None):
     """returns list of result dicts for the selected obligation indices"""
-    global _CUR
+    global _CUR, _NTIMEOUT
+    _NTIMEOUT = [0]
     idxs = [i for i in range(len(problem.obligations)) if select is None or select(problem.obligations[i])]
     trivial = [i for i in idxs if S.is_c(problem.obligations[i][3]) and problem.obligations[i][3]]
     hard = [i for i in idxs if i not in set(trivial)]
@@ -538,13 +570,14 @@ def discharge(problem, workers=1, select=None):
                 results.append({"name": nm, "verdict": UNSAT, "backend": "z3-" + z3.get_version_string() + " (incremental)",
                                 "time": round(time.time() - t0, 3)})
             else:
-                results.append(problem.check_one(i))
+                results.append(_note_result(problem.check_one(i, _budget_for(problem))))
     elif workers <= 1 or len(hard) <= 1:
-        results += [problem.check_one(i) for i in hard]
+        results += [_note_result(problem.check_one(i, _budget_for(problem))) for i in hard]
     else:
         _CUR = problem
         ctx = mp.get_context("fork")
-        with ctx.Pool(min(workers, len(hard))) as pool:
+        _NTIMEOUT = ctx.Value("i", 0)
+        with ctx.Pool(min(workers, len(hard)), initializer=die_with_parent) as pool:
             results += pool.map(_solve_idx, hard, chunksize=1)
         _CUR = None
     return results
@@ -556,6 +589,7 @@ def selfcheck(problem, rng, n=3):
     if problem.has_ext or "uf" in _prims(problem.cj.jaxpr):
         return {"skipped": "contains stubs"}
     bad = 0
+    soft = 0
     done = 0
     for _ in range(n):
         flat, raw = [], []
@@ -589,13 +623,23 @@ def selfcheck(problem, rng, n=3):
         if sym.havocked:
             return {"skipped": "havocked primitives " + str(sym.havocked)}
         done += 1
+        # the engine computes floats as exact rationals, JAX in float32: a boolean / integer output that depends on float arithmetic (an
+        # equality between two float expressions, a floor) may legitimately differ on a rounding boundary.  Such differences are counted
+        # separately (the "floats as reals" assumption at work) and are not an engine fault; without float arithmetic every difference is.
+        floaty = "float_as_real" in sym.uses
         for w, g in zip(want, got):
             w = np.asarray(w)
             gg = np.array([S.cv(x) if S.is_c(x) else np.nan for x in g.reshape(-1)], dtype=object).reshape(g.shape)
             if w.dtype == bool or np.issubdtype(w.dtype, np.integer):
                 if not np.array_equal(w.astype(object), gg):
-                    bad += 1
+                    if floaty:
+                        soft += 1
+                    else:
+                        bad += 1
             else:
                 if not np.allclose(w.astype(np.float64), gg.astype(np.float64), rtol=1e-4, atol=1e-5, equal_nan=True):
                     bad += 1
-    return {"runs": done, "mismatches": bad}
+    out = {"runs": done, "mismatches": bad}
+    if soft:
+        out["float_rounding_sensitive_differences"] = soft
+    return out
